@@ -129,15 +129,26 @@ theorem chordTail_eq (len : Option Core.LenExpr) (q v : Option Int) (R : List Na
     chordTail len q v R = Ex2.lenText len ++ argTail q v R := by
   unfold chordTail argTail; cases q <;> cases v <;> rfl
 
-/-- the argument part of `read_harmony_flag` once the length has been read: `c1` is the cursor after the blanks -/
-theorem harmArgs_none_none (lnv : SV) (R : List Nat) (ln : Int) (hR : Next R) :
-    (match (Cur.mk R ln).s with
-      | 44 :: r =>
-        (match (getInt (-1) r).2 with
-         | 44 :: r2 => (tok .harmonyEnd 0 [lnv, .int (getInt (-1) r).1, .int (getInt (-1) r2).1], (⟨(getInt (-1) r2).2, ln⟩ : Cur))
-         | _ => (tok .harmonyEnd 0 [lnv, .int (getInt (-1) r).1, .none], ⟨(getInt (-1) r).2, ln⟩))
-      | _ => (tok .harmonyEnd 0 [lnv, .int (-1), .none], ⟨R, ln⟩)) =
-      (tok .harmonyEnd 0 [lnv, .int (-1), .none], ⟨R, ln⟩) := by
+theorem harmLen_none (T : List Nat) (ln : Int) (h : ∀ c r, T = c :: r → isDigit c = false ∧ c ≠ 94) :
+    harmLen ⟨T, ln⟩ = (.none, ⟨T, ln⟩) := by
+  unfold harmLen
+  cases T with
+  | nil => simp
+  | cons c r => obtain ⟨h1, h2⟩ := h c r rfl; simp [peek, h1, h2]
+
+theorem harmLen_some (len : Option Core.LenExpr) (X : List Nat) (ln : Int) (L : Core.LenExpr) (hlen : len = some L)
+    (hc : ChordLenOK len) :
+    harmLen ⟨Ex2.lenText len ++ X, ln⟩ = (.str ((Cur.mk (Ex2.lenText len ++ X) ln).noteLength).1, ((Cur.mk (Ex2.lenText len ++ X) ln).noteLength).2) := by
+  subst hlen
+  obtain ⟨c, r, hcr, hcd⟩ := hc
+  unfold harmLen
+  have hp : (isDigit (peek (Ex2.lenText (some L) ++ X)) = true ∨ peek (Ex2.lenText (some L) ++ X) = 94) ∧ Ex2.lenText (some L) ++ X ≠ [] := by
+    rw [hcr]; simpa [peek] using hcd
+  rw [if_pos hp]
+
+theorem harmArgs_next (lnv : SV) (R : List Nat) (ln : Int) (hR : Next R) :
+    harmArgs lnv ⟨R, ln⟩ = (tok .harmonyEnd 0 [lnv, .int (-1), .none], ⟨R, ln⟩) := by
+  unfold harmArgs
   rcases hR with rfl | ⟨c, r, rfl, hs⟩
   · rfl
   · simp only []
@@ -145,6 +156,93 @@ theorem harmArgs_none_none (lnv : SV) (R : List Nat) (ln : Int) (hR : Next R) :
     · rename_i heq; simp at heq; exact absurd heq.1 hs.2.2.2.2.2.2.2.2.1
     · rfl
 
+theorem harmArgs_q (lnv : SV) (x : Int) (R : List Nat) (ln : Int) :
+    harmArgs lnv ⟨44 :: (printInt x ++ 32 :: R), ln⟩ = (tok .harmonyEnd 0 [lnv, .int x, .none], ⟨32 :: R, ln⟩) := by
+  unfold harmArgs
+  simp only []
+  rw [getInt_printInt (-1) x (32 :: R) (numEnd_blank R)]
+  rfl
+
+theorem harmArgs_qv (lnv : SV) (q : Option Int) (y : Int) (R : List Nat) (ln : Int) :
+    harmArgs lnv ⟨44 :: (optText q ++ 44 :: (printInt y ++ 32 :: R)), ln⟩ =
+      (tok .harmonyEnd 0 [lnv, Ex2.optInt (-1) q, .int y], ⟨32 :: R, ln⟩) := by
+  unfold harmArgs
+  simp only []
+  have hq : getInt (-1) (optText q ++ 44 :: (printInt y ++ 32 :: R)) = (q.getD (-1), 44 :: (printInt y ++ 32 :: R)) := by
+    cases q with
+    | none => exact getInt_none (-1) _ (by intro c r h; cases h; decide)
+    | some x => exact getInt_printInt (-1) x _ (numEnd_comma _)
+  rw [hq]
+  simp only []
+  rw [getInt_printInt (-1) y (32 :: R) (numEnd_blank R)]
+  cases q <;> rfl
+
+theorem readHarmonyEnd_print (len : Option Core.LenExpr) (q v : Option Int) (R : List Nat) (ln : Int)
+    (hl : Ex2.lenOK len) (hc : ChordLenOK len) (hR : Next R) :
+    readHarmonyEnd ⟨chordTail len q v R, ln⟩ =
+      (tok .harmonyEnd 0 [Ex2.lenSV len, Ex2.optInt (-1) q, Ex2.velSV v], ⟨afterChord q v R, ln⟩) := by
+  have hL := lenText_lenchars len hl
+  have hstop44 : Stop 44 := by unfold Stop; decide
+  have hnb44 : (44 : Nat) ≠ 32 ∧ (44 : Nat) ≠ 9 ∧ (44 : Nat) ≠ 47 := by decide
+  unfold readHarmonyEnd
+  rw [chordTail_eq]
+  cases len with
+  | none =>
+    simp only [lenText_none, List.nil_append]
+    cases q with
+    | none =>
+      cases v with
+      | none =>
+        simp only [argTail]
+        rw [harmLen_none _ ln (by intro c r h; cases h; decide)]
+        simp only []
+        rcases hR with rfl | ⟨c, r, rfl, hs⟩
+        · rw [skipSpace_blank_nil, harmArgs_next _ [] ln (Or.inl rfl)]; rfl
+        · rw [skipSpace_blank c r ln hs.nonblank, harmArgs_next _ _ ln (Or.inr ⟨c, r, rfl, hs⟩)]; rfl
+      | some y =>
+        simp only [argTail]
+        rw [harmLen_none _ ln (by intro c r h; cases h; decide)]
+        simp only []
+        rw [skipSpace_nonblank 44 _ ln hnb44, harmArgs_qv]; rfl
+    | some x =>
+      cases v with
+      | none =>
+        simp only [argTail]
+        rw [harmLen_none _ ln (by intro c r h; cases h; decide)]
+        simp only []
+        rw [skipSpace_nonblank 44 _ ln hnb44, harmArgs_q]; rfl
+      | some y =>
+        simp only [argTail]
+        rw [harmLen_none _ ln (by intro c r h; cases h; decide)]
+        simp only []
+        rw [skipSpace_nonblank 44 _ ln hnb44, harmArgs_qv]; rfl
+  | some L =>
+    rw [harmLen_some (some L) _ ln L rfl hc]
+    cases q with
+    | none =>
+      cases v with
+      | none =>
+        simp only [argTail]
+        rw [noteLength_then_blank _ hL R ln (next_stop_or_nil hR)]
+        simp only []
+        rw [next_skipSpace R ln hR, harmArgs_next _ R ln hR]; rfl
+      | some y =>
+        simp only [argTail]
+        rw [noteLength_then_stop _ hL 44 _ ln hstop44]
+        simp only []
+        rw [skipSpace_nonblank 44 _ ln hnb44, harmArgs_qv]; rfl
+    | some x =>
+      cases v with
+      | none =>
+        simp only [argTail]
+        rw [noteLength_then_stop _ hL 44 _ ln hstop44]
+        simp only []
+        rw [skipSpace_nonblank 44 _ ln hnb44, harmArgs_q]; rfl
+      | some y =>
+        simp only [argTail]
+        rw [noteLength_then_stop _ hL 44 _ ln hstop44]
+        simp only []
+        rw [skipSpace_nonblank 44 _ ln hnb44, harmArgs_qv]; rfl
 
 /-! ## the extended printer: chords, `Sub`, tuplets -/
 
